@@ -13,8 +13,30 @@ def load_texts():
     if os.path.exists(p):
         TEXT.update(json.load(open(p)))
 
+def module_texts(pid):
+    """level text / note derived from the rule module itself (EXPLANATION, NOT_DECIDED, TRUSTED, ASSUMPTIONS) so that they cannot drift."""
+    import importlib
+    try:
+        mod = importlib.import_module("rules." + pid)
+    except Exception:
+        return {}
+    expl = " ".join(getattr(mod, "EXPLANATION", "").split())
+    nd = " ".join(getattr(mod, "NOT_DECIDED", "").split())
+    if not expl:
+        return {}
+    text = ("Decides, on every run from /repo's current source (all paths / all sites of the functions named, both protocol versions where relevant), "
+            "the structural clauses: " + expl + " NOT decided (value-level / dynamic remainder): " + (nd or "nothing named") +
+            ". A pass means these necessary structural conditions hold, not that the full behavioural property was observed.")
+    trusted = list(getattr(mod, "TRUSTED", [])) + ["rustc MIR construction, trait resolution and const evaluation", "spec_tables.json (hand-written from the protocol descriptions)"]
+    ass = list(getattr(mod, "ASSUMPTIONS", []))
+    note = "Trusted: " + "; ".join(trusted) + ". Assumptions: " + ("; ".join(ass) if ass else "none beyond the trusted base") + "."
+    return {"text": text, "note": note}
+
+
 def main():
     load_texts()
+    for p in PROPS:
+        TEXT.setdefault(p["id"], {}).update(module_texts(p["id"]))
     checks = []
     na = []
     for p in PROPS:
